@@ -41,4 +41,4 @@ func VerifImports(settings config.CombinedSettings, enums []Enum, structs []Stru
 }
 
 func VerifParamName(p compiler.Parameter) string { return paramName(p) }
-func VerifArgName(name string) string             { return argName(name) }
+func VerifArgName(name string) string            { return argName(name) }
